@@ -65,6 +65,8 @@ public:
 	void *malloc(size_t required_size)
 	{
 		size_t n = ((required_size+alignment-1)/alignment + 1)*alignment;
+		if(n < alignment * 2)
+			n = alignment * 2; // a block must be able to hold struct page (see the assert in the constructor)
 		int bits = get_bits(n);
 
 		
